@@ -60,6 +60,10 @@ type foPool struct {
 	// noPoison: released frames keep their contents (as with the stock sync.Pool), so a stale
 	// reference keeps "working" and a second release through it is recorded
 	noPoison bool
+	// frames released by a connection's writer loop, i.e. written to the network: header as it
+	// went out (read by the releaser, who owns the frame, before the poison is applied)
+	wire      []foxWire
+	writerRel map[uint32]int
 }
 
 func newFoPool(name string) *foPool {
@@ -115,6 +119,9 @@ func (p *foPool) Release(f *tchannel.Frame) {
 		return
 	}
 	r.rels = append(r.rels, site)
+	if len(r.rels) == 1 && site == "Connection.writeFrames" {
+		p.noteWire(f)
+	}
 	if len(r.rels) == 1 && !p.noPoison {
 		r.pois = true
 		tchannel.VerifPoisonFrame(f)
@@ -355,6 +362,9 @@ func foServer(name string, pool *foPool, opts *tchannel.ChannelOptions) (*tchann
 		opts = &tchannel.ChannelOptions{}
 	}
 	opts.Logger = tchannel.NullLogger
+	if foxLogger != nil {
+		opts.Logger = foxLogger
+	}
 	if os.Getenv("FO_LOG") != "" {
 		opts.Logger = tchannel.NewLevelLogger(tchannel.SimpleLogger, tchannel.LogLevelInfo)
 	}
@@ -733,6 +743,13 @@ const (
 // direct: client (conn 1) <-> server (conn 2)
 func foDirect(rng *rand.Rand, calls []foCall) (labels []int64, codes []int64, verdict string) {
 	pc, ps := newFoPool("client"), newFoPool("server")
+	// hand-over family (engine_frameown_xfer.go): after every `sendCh <- frame` the connection's writer
+	// wins the race; a debug-level logger looks for headers of released frames
+	sink := &foxLogSink{}
+	foxLogger = &foxLog{sink: sink}
+	defer func() { foxLogger = nil }()
+	fast := foxInstallFastWriter(pc, ps)
+	defer fast.remove()
 	srv, err := foServer("svc", ps, nil)
 	if err != nil {
 		return nil, nil, "harness: " + err.Error()
@@ -748,6 +765,25 @@ func foDirect(rng *rand.Rand, calls []foCall) (labels []int64, codes []int64, ve
 	l.local(2, 0)
 	l.local(2, 1)
 	l.local(1, 0)
+	// a ping first (Connection.sendMessage / recvMessage on both sides, the other two users of sendCh)
+	{
+		ctx, cancel := tchannel.NewContext(3 * time.Second)
+		perr := cli.Ping(ctx, srv.PeerInfo().HostPort)
+		cancel()
+		if perr != nil {
+			verdict = "ping failed: " + perr.Error()
+		}
+		foWait(3*time.Second, func() bool { return pc.outstanding() == 0 && ps.outstanding() == 0 }, pc, ps)
+		const kp = 90
+		l.newMex(kp, 1, 1)
+		l.sendMsg(1)
+		l.write(1)
+		l.readRel(2, false)
+		l.sendMsg(2)
+		l.write(2)
+		l.readFwd(1, kp, 0)
+		l.recvMsg(kp)
+	}
 	k := int64(100)
 	for _, cl := range calls {
 		if verdict != "" {
@@ -803,15 +839,23 @@ func foDirect(rng *rand.Rand, calls []foCall) (labels []int64, codes []int64, ve
 	}
 	cli.Close()
 	srv.Close()
+	fast.remove()
 	foSettle(25*time.Millisecond, 800*time.Millisecond, pc, ps)
 	cs, v := foJudge(verdict == "", pc, ps)
 	verdict = foMerge(v, verdict)
+	if verdict == "" {
+		verdict = sink.verdict()
+	}
+	foxForced, foxInfeasible = fast.counts()
 	return l.v, cs, verdict
 }
 
 // relay: client (conn 1) -> relay (conn 2 towards the client, conn 3 towards the server) -> server (conn 4)
 func foRelay(rng *rand.Rand, calls []foCall, appendArg2 bool) (labels []int64, codes []int64, verdict string) {
 	pc, pr, ps := newFoPool("client"), newFoPool("relay"), newFoPool("server")
+	sink := &foxLogSink{}
+	foxLogger = &foxLog{sink: sink}
+	defer func() { foxLogger = nil }()
 	srv, err := foServer("svc", ps, nil)
 	if err != nil {
 		return nil, nil, "harness: " + err.Error()
@@ -821,12 +865,17 @@ func foRelay(rng *rand.Rand, calls []foCall, appendArg2 bool) (labels []int64, c
 	if appendArg2 {
 		rh.SetFrameFn(func(cf relay.CallFrame, _ *relay.Conn) { cf.Arg2Append([]byte("vk"), []byte("vv")) })
 	}
-	rly, err := tchannel.NewChannel("relay", &tchannel.ChannelOptions{RelayHost: rh, Logger: tchannel.NullLogger,
+	// hand-over family (engine_frameown_xfer.go): recording relay host, and the destination's writer
+	// is made to win the race against the relaying goroutine after every hand-over
+	rec := &foxRecHost{inner: rh}
+	rly, err := tchannel.NewChannel("relay", &tchannel.ChannelOptions{RelayHost: rec, Logger: foxLogger,
 		DefaultConnectionOptions: tchannel.ConnectionOptions{FramePool: pr}})
 	if err != nil {
 		return nil, nil, "harness: " + err.Error()
 	}
 	defer rly.Close()
+	fast := foxInstallFastWriter(pc, pr, ps)
+	defer fast.remove()
 	if err := rly.ListenAndServe("127.0.0.1:0"); err != nil {
 		return nil, nil, "harness: " + err.Error()
 	}
@@ -933,14 +982,31 @@ func foRelay(rng *rand.Rand, calls []foCall, appendArg2 bool) (labels []int64, c
 		}
 		l.closeLast(kc)
 	}
+	xv := ""
+	if verdict == "" {
+		// every call completed: the relay's statistics must describe the frames that went out
+		foWait(2*time.Second, func() bool { _, _, st, en := rec.snapshot(); return st == en }, pr)
+		xv = foxJudge(rec, pr)
+	}
 	cli.Close()
 	rly.Close()
 	srv.Close()
+	fast.remove()
 	foSettle(25*time.Millisecond, 800*time.Millisecond, pc, pr, ps)
 	cs, v := foJudge(verdict == "", pc, pr, ps)
 	verdict = foMerge(v, verdict)
+	if verdict == "" {
+		verdict = xv
+	}
+	if verdict == "" {
+		verdict = sink.verdict()
+	}
+	foxForced, foxInfeasible = fast.counts()
 	return l.v, cs, verdict
 }
+
+// forced / infeasible hand-over schedules of the last foRelay run (for the histogram)
+var foxForced, foxInfeasible int
 
 // ---------------------------------------------------------------- fo_chaos (oracle only)
 
@@ -1216,6 +1282,10 @@ func engineFrameOwn(rng *rand.Rand, n int, tier string, o *Out) {
 			o.Hist("direct method=" + c.method)
 			o.Hist(fmt.Sprintf("direct arg3=%d", len(c.arg3)))
 		}
+		o.Hist(fmt.Sprintf("direct hand-overs with the writer forced first: %v", foxForced > 0))
+		if foxInfeasible > 0 {
+			o.Hist("direct hand-over schedule infeasible (writer did not release within 2s)")
+		}
 		if i < 1 {
 			o.Sample(map[string]interface{}{"sub": "fo_direct", "calls": len(calls), "frames": len(codes)})
 		}
@@ -1239,6 +1309,10 @@ func engineFrameOwn(rng *rand.Rand, n int, tier string, o *Out) {
 		labels, codes, verdict := foRelay(rng, calls, app)
 		for _, c := range calls {
 			o.Hist(fmt.Sprintf("relay method=%s append=%v", c.method, app))
+		}
+		o.Hist(fmt.Sprintf("relay hand-overs with the destination writer forced first: %v", foxForced > 0))
+		if foxInfeasible > 0 {
+			o.Hist("relay hand-over schedule infeasible (writer did not release within 2s)")
 		}
 		if i < 1 {
 			o.Sample(map[string]interface{}{"sub": "fo_relay", "calls": len(calls), "arg2_append": app, "frames": len(codes)})
